@@ -616,6 +616,11 @@ def refine_droplet(
     mask = ndimage.binary_dilation(mask, iterations=dilation_iterations)
     if not mask.any():
         # the droplet does not cover any support point, so there is nothing to fit
+        grid = phase_field.grid
+        coords = grid.transform(droplet.position, "cartesian", "grid")
+        droplet.position = grid.transform(
+            grid.normalize_point(coords), "grid", "cartesian"
+        )
         return droplet
 
     # apply the mask
